@@ -162,37 +162,40 @@ theorem procWrite_ok (s s' : St) (c : Ctx) (args : Bytes) (w : Rfc.Wcc) (k com :
                           · simp [res] at h
                           · rename_i s1 pre hpre
                             split at h
-                            · -- the write failed: the reply is not NFS3_OK with a writeOk body
-                              simp only [res, Prod.mk.injEq, Outcome.res.injEq, Rfc.Res.mk.injEq] at h
-                              exact absurd h.2.2 (by simp)
-                            · rename_i s2 k' hwr
+                            · simp [res] at h
+                            · rename_i hnotlink
                               split at h
-                              · simp [res] at h
-                              · rename_i s3 post hpost
-                                simp only [res, Prod.mk.injEq, Outcome.res.injEq, Rfc.Res.mk.injEq, Rfc.Body.writeOk.injEq,
-                                  true_and] at h
-                                obtain ⟨hs, _, hk, hcom, hverf⟩ := h
-                                have hs1 : s1.fs = s.fs := by have := getAttr_fs s c.now n; rw [hpre] at this; exact this
-                                have hs3 : s3.fs = s2.fs := by have := getAttr_fs s2 c.now n; rw [hpost] at this; exact this
-                                -- open the write
-                                unfold writeOp at hwr
-                                split at hwr
-                                · simp at hwr
-                                · rename_i hoffmax
+                              · -- the write failed: the reply is not NFS3_OK with a writeOk body
+                                simp only [res, Prod.mk.injEq, Outcome.res.injEq, Rfc.Res.mk.injEq] at h
+                                exact absurd h.2.2 (by simp)
+                              · rename_i s2 k' hwr
+                                split at h
+                                · simp [res] at h
+                                · rename_i s3 post hpost
+                                  simp only [res, Prod.mk.injEq, Outcome.res.injEq, Rfc.Res.mk.injEq, Rfc.Body.writeOk.injEq,
+                                    true_and] at h
+                                  obtain ⟨hs, _, hk, hcom, hverf⟩ := h
+                                  have hs1 : s1.fs = s.fs := by have := getAttr_fs s c.now n; rw [hpre] at this; exact this
+                                  have hs3 : s3.fs = s2.fs := by have := getAttr_fs s2 c.now n; rw [hpost] at this; exact this
+                                  -- open the write
+                                  unfold writeOp at hwr
                                   split at hwr
                                   · simp at hwr
-                                  · rename_i fs1 kk hwa
-                                    simp only at hwr
-                                    have hfs2 : s2.fs = fs1 ∧ k' = kk := by
-                                      split at hwr
-                                      · simp only [Except.ok.injEq, Prod.mk.injEq] at hwr
-                                        exact ⟨by rw [← hwr.1]; rfl, hwr.2.symm⟩
-                                      · simp only [Except.ok.injEq, Prod.mk.injEq] at hwr
-                                        exact ⟨by rw [← hwr.1]; rfl, hwr.2.symm⟩
-                                    refine ⟨⟨hh, off, cnt, stable, dlen, r1, r2, r3, r4, r5, rest, data, n, fs1, hfh, hoff, hcnt, hst, hdl,
-                                      htake, by simpa using hro, by omega, by simpa using hmax, by omega, hn, ?_, ?_, hcom.symm, hverf.symm⟩⟩
-                                    · rw [hs1] at hwa; rw [← hk, hfs2.2]; exact hwa
-                                    · rw [← hs, hs3, hfs2.1]
+                                  · rename_i hoffmax
+                                    split at hwr
+                                    · simp at hwr
+                                    · rename_i fs1 kk hwa
+                                      simp only at hwr
+                                      have hfs2 : s2.fs = fs1 ∧ k' = kk := by
+                                        split at hwr
+                                        · simp only [Except.ok.injEq, Prod.mk.injEq] at hwr
+                                          exact ⟨by rw [← hwr.1]; rfl, hwr.2.symm⟩
+                                        · simp only [Except.ok.injEq, Prod.mk.injEq] at hwr
+                                          exact ⟨by rw [← hwr.1]; rfl, hwr.2.symm⟩
+                                      refine ⟨⟨hh, off, cnt, stable, dlen, r1, r2, r3, r4, r5, rest, data, n, fs1, hfh, hoff, hcnt, hst, hdl,
+                                        htake, by simpa using hro, by omega, by simpa using hmax, by omega, hn, ?_, ?_, hcom.symm, hverf.symm⟩⟩
+                                      · rw [hs1] at hwa; rw [← hk, hfs2.2]; exact hwa
+                                      · rw [← hs, hs3, hfs2.1]
 
 /-- Fs level: a successful WriteAt of a non-empty payload stores exactly the payload at the offset of the file the
     path resolves to (zero-filling a hole), reports its full length, and leaves every other entry alone. -/
